@@ -111,7 +111,15 @@ pub fn drive(spec: CheckSpec) -> i32 {
         }));
         std::fs::remove_file(&bb).ok();
       }
-      Ok(_) => { eprintln!("HARNESS-ERROR: run {} killed a worker ({}) but survived when re-executed alone", k, why); harness_trouble = true; }
+      Ok(_) => {
+        if why.contains("WATCHDOG") {
+          // slow under load, fine alone: not a verdict and not a harness fault
+          println!("NOTE: run {} exceeded the wall-clock backstop under load but completes when re-executed alone", k);
+        } else {
+          eprintln!("HARNESS-ERROR: run {} killed a worker ({}) but survived when re-executed alone", k, why);
+          harness_trouble = true;
+        }
+      }
     }
   }
 
